@@ -33,7 +33,8 @@ ASSUMPTIONS = ['the simulated communicator stands in for MPI: rendezvous collect
                'ranks owning no trajectory are excluded (load_trajectory_as_striped itself rejects that)',
                'each rank seeds its own RandomState(seed) as separate processes would']
 GUARDS = {'all_negative_data': 50, 'unequal_stripes': 200, 'owner_changes': 200, 'nondefault_order': 100, 'hybrid_checked': 100, 'rank_len1': 100,
-          'rect_stripe_in_ragged_whole': 20, 'randind_values': 100, 'file_loads': 20, 'warm_kmedoids': 20}
+          'rect_stripe_in_ragged_whole': 20, 'randind_values': 100, 'file_loads': 20, 'warm_kmedoids': 20, 'hot_start': 200,
+          'hot_start_rank_without_init_frame': 50, 'empty_rank': 40}
 RULER = [0, 2, 6, 24, 29, 40, 43, 55, 68, 75, 76, 85]
 
 
@@ -117,7 +118,11 @@ def check_cluster(case, ctx, bound):
     X = np.array(vals[:n], dtype=float).reshape(-1, 1)
     D = cr.dist_matrix(X, metric)
     L = np.array(lengths)
-    serial = kc.kcenters(X, metric, n_clusters=k) if algo != 'kcenters_r' else kc.kcenters(X, metric, dist_cutoff=case['r'])
+    if algo == 'kcenters_hot':
+        # warm start from frames of the data (serial definition: the same call on the concatenation)
+        serial = kc.kcenters(X, metric, n_clusters=k, init_centers=X[case['init']].copy())
+    else:
+        serial = kc.kcenters(X, metric, n_clusters=k) if algo != 'kcenters_r' else kc.kcenters(X, metric, dist_cutoff=case['r'])
     s_ci = [int(c) for c in serial.center_indices]
     stripes = [stripe(lengths, R, r) for r in range(R)]
     if len({len(s) for s in stripes}) > 1:
@@ -139,6 +144,8 @@ def check_cluster(case, ctx, bound):
                 res = kc.kcenters(Xl, metric, n_clusters=k, mpi_mode=True)
             else:
                 res = kc.kcenters(Xl, metric, dist_cutoff=case['r'], mpi_mode=True)
+        elif algo == 'kcenters_hot':
+            res = kc.kcenters(Xl, metric, n_clusters=k, init_centers=X[case['init']].copy(), mpi_mode=True)
         elif algo == 'hybrid':
             res = hy.hybrid(Xl, metric, n_iters=iters, n_clusters=k, random_state=seed, mpi_mode=True)
         elif algo in ('kmedoids_flat', 'kmedoids_pairs'):
@@ -174,7 +181,11 @@ def check_cluster(case, ctx, bound):
         res = Res()
         res.center_indices, res.assignments, res.distances = got['centers'], got['labels'], got['distances']
         res.centers = [np.array(x) for x in got['coords']]
-        if algo in ('kcenters', 'kcenters_r'):
+        if algo in ('kcenters', 'kcenters_r', 'kcenters_hot'):
+            if algo == 'kcenters_hot':
+                ctx.guard('hot_start')
+                if len({[r_ for r_ in range(R) if g in stripes[r_]][0] for g in case['init']}) < min(R, len(case['init'])):
+                    ctx.guard('hot_start_rank_without_init_frame')
             if got['centers'] != s_ci or not np.array_equal(got['labels'], serial.assignments) or \
                     not np.allclose(got['distances'], serial.distances, rtol=0, atol=1e-12):
                 ctx.violation('%s:differs_from_serial' % algo, c,
@@ -195,7 +206,7 @@ def check_cluster(case, ctx, bound):
                 break
         return ('ok', f0)
 
-    key = ('cluster', R, tuple(lengths), tuple(vals[:n]), algo, k, iters, seed, case.get('r'))
+    key = ('cluster', R, tuple(lengths), tuple(vals[:n]), algo, k, iters, seed, case.get('r'), tuple(case.get('init', ())))
     outs = explore_world(R, fn, bound, ctx, key, judge)
     if len(outs) > 1:
         ctx.violation('%s:schedule_dependent' % algo, case, '%d distinct outcomes over arrival orders' % len(outs))
@@ -296,6 +307,8 @@ def check_ops(case, ctx, bound):
         return ('ok', freeze(w.ret[0]['ragged']))
 
     key = ('ops', R, tuple(lengths), tuple(vals[:n]))
+    if R > len(lengths):
+        ctx.guard('empty_rank')
     if max(vals[:n]) < 0:
         ctx.guard('all_negative_data')
     outs = explore_world(R, fn, bound, ctx, key, judge)
@@ -373,6 +386,15 @@ def run_shard(sh, ctx):
                     Dm = cr.dist_matrix(X, 'euclidean')
                     r = float(np.sort(Dm[np.triu_indices(n, 1)])[n // 2])
                     check_cluster(dict(base, kind='cluster', algo='kcenters_r', r=r), ctx, 0)
+                    # warm starts: every pair of frames as initial centers (quick: pairs containing frame 0 or n-1),
+                    # continued to 2 (nothing to add) and 3 centers
+                    if ai == 0:
+                        for init in itertools.combinations(range(n), 2):
+                            if tier == 'quick' and not (init[0] == 0 or init[1] == n - 1):
+                                continue
+                            for k in (2, 3):
+                                check_cluster(dict(base, kind='cluster', algo='kcenters_hot', k=k, init=list(init)), ctx,
+                                              bound if (k == 3 and init == (0, n - 1)) else 0)
                     for iters in (0, 1, 2):
                         for seed in ((ctx.seed, ctx.seed + 1) if iters else (ctx.seed,)):
                             check_cluster(dict(base, kind='cluster', algo='hybrid', k=min(3, n - 1), iters=iters, seed=seed),
@@ -386,6 +408,13 @@ def run_shard(sh, ctx):
                     check_ops(dict(base, kind='ops', data=[-v - 1 for v in vals]), ctx, 0)
                     if ai == 0:
                         check_ops(dict(base, kind='ops', data=[(v - 30) * (1 if i % 2 else -1) - 0.5 for i, v in enumerate(vals)]), ctx, 0)
+            if R == len(lengths) and len(lengths) <= 3:
+                # more ranks than trajectories: the surplus ranks hold an empty share of every striped array
+                for extra in (1, 2):
+                    for ai, vals in enumerate(arrangements(n)[:2]):
+                        eb = {'R': R + extra, 'lengths': lengths, 'data': vals, 'kind': 'ops'}
+                        check_ops(eb, ctx, (1 if (extra == 1 and ai == 0 and R + extra <= 3) else 0))
+                        check_ops(dict(eb, data=[-v - 1 for v in vals]), ctx, 0)
             if j % 37 == 0:
                 ctx.sample(dict(base, algo='kcenters|hybrid|kmedoids|ops', deviation_bound=bound))
     else:
